@@ -213,7 +213,8 @@ def jobs_for(prop, tier='quick'):
 
 
 TB = ('Trusted: the pyvc symbolic executor and its encoding of Python (E-list, DESIGN.md section 3), z3; assumed contracts of libraries and of '
-      'user-supplied callables (A-list / roles / rely U1-U5) as listed in the evidence file. ')
+      'user-supplied callables (A-list / roles / rely U1-U5) as listed in the evidence file. On a changed tree a unit outside the verifier\'s reach is '
+      'undecided (exit 2) unless a bounded native stand-in (DESIGN 10.1) decides it, labelled bounded and never counted as discharged. ')
 
 CLAIMS = {
     'C01': dict(text='Record-step and replay-step contracts of the three decorator wrappers, of play and of the operation wrapper are discharged on the real '
@@ -271,7 +272,7 @@ CLAIMS['C13'] = dict(text='Safety parts discharged on the real code: recycle-age
 CLAIMS['C07'] = dict(text='save / get contracts of the three real cassettes against one abstract view (id, key set, CP-copy under every key, equal metadata; other ids '
                           'untouched; unknown id raises NoSuchRecording; metadata fetched alone agrees), MemoryRecording / Recording methods against the Recording '
                           'interface contract, facade put/get over the bucket ghost, storage-key injectivity lemmas (cvc5).',
-                     note=TB + 'jsonpickle, zlib, file system and boto3 are assumed contracts (A1, A2, A4, A5). Two recorded known findings (reserved key texts).')
+                     note=TB + 'jsonpickle, zlib, file system and boto3 are assumed contracts (A1, A2, A4, A5). Three recorded known findings: reserved key texts (two), and a shared reference after a plain object (jsonpickle 0.9.3 on Python >= 3.11; A1 is assumed outside that case only).')
 CLAIMS['C10'] = dict(text='Lookup contracts of the three real iter_recording_ids against the same abstract view: loop invariants with a filter spec function (ids of the '
                           'stored recordings of exactly that category whose metadata matches, in storage order), first min(limit, matches) of them, nothing modified; '
                           'S3: day-iterator construction, facade listing generator (relevant keys in listing order, stops at the limit), round-robin generator '
